@@ -21,7 +21,7 @@ LEVEL_TEXT = (
 LEVEL_NOTE = "Trusts vlib/detsched.py; in real-thread mode a latch that does not open within 8 s is reported as inconclusive, not as a violation."
 TECHNIQUE = "property-based testing with harness-owned schedules: in-flight counters, rendezvous latch (deadlock = verdict), attempt counters"
 RULE = (
-    "(also: one width case in 16 has 33-80 workers and as many independent calls; failing attempts under retry raise frozen/__slots__/falsy/unprintable exceptions; call 'functions' that are objects or partials) width: m in 1..6 independent calls hanging at different depths off a small tree of set-up calls (+ downstream consumers, optional registry with stored nodes), workers w in 1..m+3, "
+    "(also: one width case in 40 (quick; 16 thorough) has 33-40 (33-80) workers and as many independent calls; failing attempts under retry raise frozen/__slots__/falsy/unprintable exceptions; call 'functions' that are objects or partials) width: m in 1..6 independent calls hanging at different depths off a small tree of set-up calls (+ downstream consumers, optional registry with stored nodes), workers w in 1..m+3, "
     "stale_check_max_workers, any scheduler/schedule; oracle: max in-flight calls+store ops <= w, modified-time queries <= "
     "stale_check_max_workers (default w), latch of width min(w, m) opens. max_errors: failing subset, k; oracle: failed "
     "<= k + w; one worker: failed == min(k+1, eligible failing); k=None: every call with no failed ancestor ran. retry: "
@@ -34,12 +34,12 @@ ASSUMPTIONS = ["retry applies to Exception subclasses only (create_retry's docum
 
 
 @st.composite
-def width_cases(draw):
+def width_cases(draw, big_one_in=16, big_max=80):
     m = draw(st.integers(1, 6))
-    big = draw(st.integers(0, 15)) == 0
+    big = draw(st.integers(0, big_one_in - 1)) == 0
     if big:
         # widths beyond the usual pool sizes (33-80 workers, as many independent calls): nothing documents a cap
-        m = draw(st.integers(33, 80))
+        m = draw(st.integers(33, big_max))
     use_reg = draw(st.booleans())
     nodes = []
     # a small tree of non-blocking set-up calls; each rendezvous call hangs off one of them (or none), so
@@ -297,7 +297,7 @@ def check_case(ctx, case, record=True):
 def run_shard(ctx):
     max_nodes = 8 if ctx.tier == "quick" else 12
 
-    @given(st.one_of(width_cases(), maxerr_cases(max_nodes), retry_cases(max_nodes)))
+    @given(st.one_of(width_cases(*((40, 40) if ctx.tier == "quick" else (16, 80))), maxerr_cases(max_nodes), retry_cases(max_nodes)))
     def test(case):
         runner.guarded(ctx, check_case, case)
 
